@@ -675,6 +675,22 @@ def m_str_format(interp, self, args, kwargs):
         raise _pyraise(e)
 
 
+@method_model(str, 'format_map')
+def m_str_format_map(interp, self, args, kwargs):
+    mapping = args[0]
+    if isinstance(mapping, (SOpt, SChoice)):
+        mapping = interp.resolve(mapping)
+    if not isinstance(mapping, dict):
+        raise Unsupported('str.format_map with %r' % type(mapping).__name__)
+    if contains_sym(mapping, 2) or any(_has_sym_state(a) for a in mapping.values()):
+        # a message with symbolic parts: an unconstrained string (as for str.format)
+        return SStr(interp.st.fresh_str('fmt'))
+    try:
+        return self.format_map({k: _fmt_arg(interp, v) for k, v in mapping.items()})
+    except Exception as e:
+        raise _pyraise(e)
+
+
 def _has_sym_state(a):
     d = getattr(a, '__dict__', None)
     if isinstance(d, dict) and contains_sym(d, 1):
